@@ -307,3 +307,14 @@ Theorem C12_read_vec_never_panics : forall A (P : A -> Prop) (r : Rd A),
   match read_vec_of r bs with Ok (l, rest) => Forall P l /\ is_bytes rest | Err _ => True | Panic => False end.
 Proof. exact @safe_read_vec_of. Qed.
 Print Assumptions C12_read_vec_never_panics.
+
+(* Context::read_from accepts exactly what Context::new accepts for the trace info / options it has read *)
+Theorem C12_read_Context_total : forall bs, is_bytes bs ->
+  match read_Context bs with
+  | Ok (c, rest) => (wf_TraceInfo (ctx_trace_info c) /\ wf_ProofOptions (ctx_options c) /\ 1 <= len (ctx_modulus c) <= 255 /\
+                     Context_new (ctx_modulus c) (ctx_trace_info c) (ctx_options c) = Ok c) /\ is_bytes rest
+  | Err _ => True
+  | Panic => False
+  end.
+Proof. exact read_Context_total. Qed.
+Print Assumptions C12_read_Context_total.
